@@ -144,8 +144,13 @@ type Exec struct {
 	barrierCh   chan struct{}
 	schedStates atomic.Int64
 	BadStates   atomic.Int64
-	startCh     map[int]chan struct{} // closed when the function is first entered
-	startOnce   map[int]*sync.Once
+	// Scheduler state reports received through cff.SchedulerEmitter.
+	FirstBadState string
+	LastStateExit atomic.Int64          // stamp taken when the latest EmitScheduler call returned
+	Limit         int                   // the directive's concurrency limit (set by the runner)
+	MaxJobs       int                   // upper bound on the jobs the directive can submit (set by the runner)
+	startCh       map[int]chan struct{} // closed when the function is first entered
+	startOnce     map[int]*sync.Once
 
 	// Bare programs: poison runs once, when the first user function is entered.
 	poison     func()
